@@ -128,6 +128,48 @@ M = [
     ("M50", CON, "        and not expression.denominator.parents\n", "", None, "V", "contract accepts a conditional denominator"),
     ("M51", DSL, "        if isinstance(expression, Zero):\n            return expression\n        rv = cls(", "        rv = cls(", None, "H",
      "Sum.safe keeps Sum over Zero()"),
+    ("M53", DSL, "            children=(*self.children, *self.parents),\n        )", "            children=self.children,\n        )", None, "V",
+     "Distribution.uncondition drops the parents (fraction_expand / bayes_expand numerators)"),
+    ("M54", DSL, "                parents=_upgrade_ordering((*self.parents, *_upgrade_variables(parents))),",
+     "                parents=_upgrade_ordering(_upgrade_variables(parents)),", None, "H", "Distribution.given forgets the existing parents (chain_expand only calls it on parent-less distributions: unreachable from the anchored functions)"),
+    ("M55", DSL, "        if isinstance(expression, One):\n            return self\n        elif isinstance(expression, Fraction):\n            return Fraction(self * expression.denominator, expression.numerator)",
+     "        if isinstance(expression, Fraction):\n            return Fraction(self * expression.denominator, expression.numerator)", None, "H",
+     "Expression.__truediv__: x / One() builds Fraction(x, One()) (same value)"),
+    ("M56", DSL, "    def __truediv__(self, other: Expression) -> Expression:\n        if isinstance(other, Zero):\n            raise ZeroDivisionError\n        return self",
+     "    def __truediv__(self, other: Expression) -> Expression:\n        if isinstance(other, Zero):\n            raise ZeroDivisionError\n        return One()", None, "V",
+     "Zero.__truediv__ returns One()"),
+    ("M57", DSL, "    def __mul__(self, expression: Expression) -> Expression:\n        return expression\n\n    def __eq__(self, other: Any) -> bool:\n        return isinstance(other, One)",
+     "    def __mul__(self, expression: Expression) -> Expression:\n        return self\n\n    def __eq__(self, other: Any) -> bool:\n        return isinstance(other, One)", None, "V",
+     "One.__mul__ returns One()"),
+    ("M58", DSL, "        if isinstance(other, Zero):\n            return other\n        elif isinstance(other, One):\n            return self\n        elif isinstance(other, Product):\n            return Product.safe((self, *other.expressions))",
+     "        if isinstance(other, Zero):\n            return self\n        elif isinstance(other, One):\n            return self\n        elif isinstance(other, Product):\n            return Product.safe((self, *other.expressions))", None, "V",
+     "Probability.__mul__(Zero) returns the probability"),
+    ("M59", DSL, "        if not ranges:\n            return expression\n        if isinstance(expression, Zero):", "        if not ranges:\n            return One()\n        if isinstance(expression, Zero):", None, "V",
+     "Sum.safe with no ranges returns One()"),
+    ("M60", DSL, "    return tuple(sorted(interventions, key=lambda i: (i.name, i.star)))", "    return tuple(sorted(interventions, key=lambda i: i.name))", None, "H",
+     "_sort_interventions ignores the star (only matters for X@(-A,+A), which cannot be built consistently)"),
+    ("M61", DSL, "    return _sorted_variables(set(_upgrade_variables(variables)))", "    return tuple(dict.fromkeys(_upgrade_variables(variables)))", None, "V",
+     "_upgrade_ordering does not sort (explicit orderings are taken literally; Sum.simplify / marginalize ranges unsorted)"),
+    ("M62", CAN, "    for expression in product.expressions:\n        if isinstance(expression, Product):\n            yield from _flatten_product(expression)\n        else:\n            yield expression\n\n\ndef _flatten_expressions",
+     "    for expression in product.expressions:\n        if isinstance(expression, Product):\n            yield from expression.expressions\n        else:\n            yield expression\n\n\ndef _flatten_expressions", None, "H",
+     "_flatten_product only one level deep (equivalent: _flatten_expressions flattens what the recursive calls return)"),
+    ("M63", CAN, "                ranges=expression.ranges,\n                simplify=True,", "                ranges=self._sorted(expression.ranges)[:1],\n                simplify=True,", None, "V",
+     "canonicalize keeps only the first range of a sum"),
+    ("M64", CAN, "            rv = numerator / denominator", "            rv = Fraction(numerator, denominator)", None, "H",
+     "canonicalize does not flatten compound fractions (a different but consistent normal form: idempotent, presentation invariant, same value)"),
+    ("M65", CAN, "                if rv.numerator == rv.denominator:\n                    return One()", "                if rv.numerator == rv.denominator:\n                    return rv.numerator", None, "V",
+     "canonicalize: x/x after the division returns x"),
+    ("M66", CAN, "            if isinstance(denominator, One):\n                return numerator\n", "            if isinstance(denominator, One):\n                return expression.numerator\n", None, "V",
+     "canonicalize: x/One returns the uncanonicalised numerator"),
+    ("M67", CAN, "        elif isinstance(expression, One | Zero):\n            return expression", "        elif isinstance(expression, One | Zero):\n            return One()", None, "V",
+     "canonicalize(Zero()) is One()"),
+    ("M68", DSL, "            return Product.safe((*self.expressions, other))", "            return Product.safe((other, *self.expressions[1:]))", None, "V",
+     "Product.__mul__(other) loses its first factor"),
+    ("M69", DSL, "            return Fraction(\n                self.numerator * expression.numerator,\n                self.denominator * expression.denominator,\n            )",
+     "            return Fraction(\n                self.numerator * expression.numerator,\n                self.denominator,\n            )", None, "V",
+     "Fraction.__mul__(Fraction) drops the right denominator"),
+    ("M70", CON, "    children = set(expression.numerator.children).difference(expression.denominator.children)",
+     "    children = set(expression.numerator.children)", None, "H", "contract keeps the denominator's variables among the children (P(A,B|B) denotes P(A|B): same value)"),
     ("M52", DSL, "            elif ranges < set(children):\n                keep = set(children) - ranges\n                return expression._new(",
      "            elif ranges < set(children) and len(ranges) < 2:\n                keep = set(children) - ranges\n                return expression._new(", None, "H",
      "Sum.simplify subset branch only for single ranges (falls to the partial branch: same result)"),
